@@ -298,6 +298,7 @@ def run(chk):
     _rootflag_rule(chk, prog)
     _loopraise_rule(chk, prog)
     _timerarm_rule(chk, prog)
+    _coercedetach_rule(chk, prog)
     from rules.c14 import _castrange_rule
     _castrange_rule(chk, prog.tus["ev.c"], rule="C07-TIMECAST",
                     desc="a duration is converted to the timer queue's integer timestamp only after NaN and out-of-range values were excluded "
@@ -514,3 +515,33 @@ def _timerarm_rule(chk, prog):
     if n == 0:
         chk.note("%s: no timerfd in this configuration (vacuous)" % rule)
     chk.floor(rule, 0, n)
+
+
+def _coercedetach_rule(chk, prog):
+    """An await that cannot suspend (it happens inside a janet_call, or reaches janet_signalv while errors are being
+    coerced) is turned into an error.  The wait it was setting up is thereby abandoned, and both of its traces have to
+    go: the timeout (the task's generation is bumped, so the timer finds a stale id) and the registration with the
+    stream (janet_async_end) - otherwise the next byte on that stream resumes the task out of whatever it waits for by
+    then, with the bytes as that wait's result."""
+    rule = "C07-COERCEDETACH"
+    chk.rule(rule, "wherever an event signal is coerced to an error (the generation bump under `== JANET_SIGNAL_EVENT`), the same branch ends the async operation of that fiber")
+    n = 0
+    for fn in prog.all_funcs():
+        for x in fn.nodes:
+            if x.k != "if" or not any(y.k == "ref" and y.name == "JANET_SIGNAL_EVENT" for y in x.kids[0].walk()):
+                continue
+            bumps = [y for y in x.kids[1].walk() if y.k == "un" and y.op in ("++", "post++", "pre++") and any(z.k == "mem" and z.field == "sched_id" for z in y.walk())]
+            bumps += [y for y in x.kids[1].walk() if y.k == "asg" and y.op == "+=" and y.kids[0].k == "mem" and y.kids[0].field == "sched_id"]
+            if not bumps:
+                continue
+            n += 1
+            chk.instance(rule)
+            chk.analysed(fn)
+            ends = [c for c in x.kids[1].walk() if c.k == "call" and c.callee in ("janet_async_end", "janet_fiber_did_resume")]
+            if ends:
+                chk.ok(rule, "%s: the coerced await is detached from its stream" % fn.name)
+            else:
+                chk.violation(rule, fn.tu.name, fn.name, "sched_id++", bumps[0].loc,
+                              "%s turns an await into an error and bumps the task's generation (%s) but leaves the fiber registered with the "
+                              "stream it had attached to: a later event on that stream resumes the task out of an unrelated wait" % (fn.name, bumps[0].loc))
+    chk.floor(rule, 2, n)
